@@ -40,6 +40,12 @@ def build_inputs(rng, tmp):
     ref_row, rows = anno.make_msa(rng, genome, nrec)
     # make ties in the aggregate (same position, different lengths / alleles)
     msa = W("msa.fasta", gen.layout(rng, [("REF", ref_row)] + [("s%d" % i, r) for i, r in enumerate(rows)], "plain"))
+    # the reference inside the alignment but not first: near the end of a short file, so that the records behind it can
+    # all overtake it (the writer has to step over the reference record whatever the arrival order)
+    short = [("s%d" % i, r) for i, r in enumerate(rows[:9])]
+    msa2 = W("msa_ref_near_end.fasta", gen.layout(rng, short[:7] + [("REF", ref_row)] + short[7:], "plain"))
+    msa3 = W("msa_ref_middle.fasta", gen.layout(rng, [("s%d" % i, r) for i, r in enumerate(rows[:20])] + [("REF", ref_row)] +
+                                            [("s%d" % i, r) for i, r in enumerate(rows[20:], 20)], "plain"))
     gff = W("anno.gff", anno.render_gff(genome, feats))
     gb = W("anno.gb", anno.render_genbank(genome, [f for f in feats]))
     ref = W("ref.fasta", gen.layout(rng, [("REF", genome)], "plain"))
@@ -56,7 +62,7 @@ def build_inputs(rng, tmp):
     udref = W("udref.fasta", gen.layout(rng, [("ref", r2)], "plain"))
     udq = W("udq.fasta", gen.layout(rng, qs, "plain"))
     udt = W("udt.fasta", gen.layout(rng, ts, "plain"))
-    return dict(msa=msa, gff=gff, gb=gb, ref=ref, aln=aln, sam=sam, udref=udref, udq=udq, udt=udt, tmp=tmp)
+    return dict(msa=msa, msa2=msa2, msa3=msa3, gff=gff, gb=gb, ref=ref, aln=aln, sam=sam, udref=udref, udq=udq, udt=udt, tmp=tmp)
 
 
 def commands(F, binp):
@@ -69,6 +75,8 @@ def commands(F, binp):
         "sam variants --aggregate": ["sam", "variants", "-s", F["sam"], "-r", F["ref"], "-a", F["gff"], "-t", T, "--aggregate"],
         "variants gff": ["variants", "--msa", F["msa"], "-r", "REF", "-a", F["gff"], "-t", T, "--append-snps"],
         "variants gb": ["variants", "--msa", F["msa"], "-r", "REF", "-a", F["gb"], "-t", T],
+        "variants ref-near-end": ["variants", "--msa", F["msa2"], "-r", "REF", "-a", F["gff"], "-t", T, "--append-snps"],
+        "variants ref-middle": ["variants", "--msa", F["msa3"], "-r", "REF", "-a", F["gff"], "-t", T],
         "variants --aggregate": ["variants", "--msa", F["msa"], "-r", "REF", "-a", F["gff"], "-t", T, "--aggregate"],
         "snps": ["snps", "-r", F["ref"], "-q", F["aln"]],
         "snps --aggregate": ["snps", "-r", F["ref"], "-q", F["aln"], "--aggregate"],
